@@ -72,7 +72,7 @@ def build(case, rng):
     g = nx.Graph(g)
     r = rng.random()
     if r < 0.4:
-        labels = rng.sample(range(0, 200), g.number_of_nodes())
+        labels = rng.sample(range(0, 200) if rng.random() < 0.5 else range(300, 10 ** 6), g.number_of_nodes())
         g = nx.relabel_nodes(g, dict(zip(list(g.nodes()), labels)))
     elif r < 0.55:
         g = nx.relabel_nodes(g, {v: "v%d" % v for v in g.nodes()})      # vertex ids need not be ints
@@ -114,6 +114,16 @@ def motif_object(g, name):
     return H
 
 
+def _fresh(root):
+    """the focal vertex as a caller computes it anew for every call: EQUAL to the graph's node, not the same object (ints beyond CPython's
+    small-int cache, strings built at run time)"""
+    if isinstance(root, int) and not isinstance(root, bool):
+        return int(str(root))
+    if isinstance(root, str):
+        return (root + "_")[:-1]
+    return root
+
+
 def query(res, ae, watch, g, name, root, mode, rng, oracle_cache, ctx, H=None, phi=None, out=None):
     """one call of the real method + comparison with the oracle; returns False on violation.  H: a motif graph OBJECT kept by the
     caller between calls (its 'u' attributes are overwritten in place, as a message-passing sweep does); phi: reuse this value"""
@@ -128,7 +138,7 @@ def query(res, ae, watch, g, name, root, mode, rng, oracle_cache, ctx, H=None, p
         for v in nodes:
             H.nodes[v]["u"] = P.var("u" if common else "u%s" % v)
         try:
-            got = watch.around(lambda: sut("automated_equation(poly)", ae.automated_equation, H, P.var("phi"), root))
+            got = watch.around(lambda: sut("automated_equation(poly)", ae.automated_equation, H, P.var("phi"), _fresh(root)))
         except SutRaised as e:
             if not isinstance(e.exc, ShadowUnsupported):
                 raise
@@ -172,7 +182,7 @@ def query(res, ae, watch, g, name, root, mode, rng, oracle_cache, ctx, H=None, p
             import numpy as np
             grid = [phi, rng.random(), rng.choice([0.0, 1.0, 0.5, rng.random()])]
             res.count("vectorised_phi_calls")
-            gotv = watch.around(lambda: sut("automated_equation(phi array)", ae.automated_equation, H, np.array(grid, dtype=float), root))
+            gotv = watch.around(lambda: sut("automated_equation(phi array)", ae.automated_equation, H, np.array(grid, dtype=float), _fresh(root)))
             try:
                 vals = [float(x) for x in np.asarray(gotv, dtype=float).ravel()]
             except Exception:
@@ -184,7 +194,7 @@ def query(res, ae, watch, g, name, root, mode, rng, oracle_cache, ctx, H=None, p
                 return False
             res.count("float_checks", len(grid))
             return True
-        got = watch.around(lambda: sut("automated_equation(float)", ae.automated_equation, H, phi, root))
+        got = watch.around(lambda: sut("automated_equation(float)", ae.automated_equation, H, phi, _fresh(root)))
         want = percolation_value(counts, m, root, phi, us)
         res.count("float_checks")
         # tolerance from the conditioning of the sum (arguments outside [0,1] make the terms alternate and cancel)
@@ -234,7 +244,7 @@ def run_case(case):
             i = rng.choice(ids)
             g = nx.Graph(atlas_graph(i))
             if rng.random() < 0.5:
-                g = nx.relabel_nodes(g, dict(zip(list(g.nodes()), rng.sample(range(50), g.number_of_nodes()))))
+                g = nx.relabel_nodes(g, dict(zip(list(g.nodes()), rng.sample(range(50) if rng.random() < 0.5 else range(300, 10 ** 6), g.number_of_nodes()))))
             motifs.append(("h%d-atlas%d" % (j, i), g, {}))
         ae = sut("AutomatedEquation()", AutomatedEquation)
         watch = CacheWatch(ae, res)
